@@ -183,7 +183,9 @@ static void cutchoose_systems(World &W, const Args &a) {
 		S->verifier = [=](std::istream &i, std::ostream &o) { return T->TMCG_VerifyStackEquality(K->vs, K->vs2, cyc, B, i, o); };
 		group_knobs(S, B); stack_knobs(S, K);
 		// per round: commitment, then sts ^ n ^ (index ^ crs|r|)*n
-		S->label = [n](size_t i, size_t tot) { size_t per = 2 + 2 * n; if (tot % per) return std::string("tok"); size_t k = i % per; return k == 0 ? std::string("commit") : k == 1 ? std::string("size") : (k % 2 == 0 ? std::string("index") : std::string("secret")); };
+		S->label = [n](size_t i, size_t tot) { size_t per = 3 + 3 * n; if (tot % per) return std::string("tok"); size_t k = i % per;
+			if (k == 0) return std::string("commit"); if (k == 2) return std::string("size"); if (k < 3) return std::string("magic");
+			return (k - 3) % 3 == 0 ? std::string("index") : (k - 3) % 3 == 2 ? std::string("secret") : std::string("magic"); };
 		// the statement's two stacks are both used only if both challenge values occur; otherwise take new coins
 		S->tol = nullptr;
 		for (int tries = 0; tries < 20; tries++) {
